@@ -319,6 +319,8 @@ class InstallStream(Stream):
                         return f"{where}: install changed existing named run {NAMES[j]}"
                 if prev["flat"] is not None and L["flat"] != prev["flat"]:
                     return f"{where}: install changed the existing flat run dir"
+                if op[0] == "install" and out == "exists":
+                    return f"{where}: numbered install refused with 'already exists': the number chosen was taken"
                 new = sorted(set(cn) - set(pn))
                 if op[0] != "install" and new:
                     return f"{where}: a non-numbered install created run{new}"
